@@ -45,6 +45,8 @@ enum Op {
     Truncate(u8),
     EntrySet(u8),
     EntryRemove(u8),
+    /// n times set(0, fresh): a long run of single updates
+    BurstSet0(u8),
 }
 
 #[derive(Clone, Copy, Debug, PartialEq, Eq, Hash)]
@@ -98,6 +100,8 @@ struct Cfg {
     txn_abort: bool,
     /// offer the composite two-diff transaction token
     txn2: bool,
+    /// offer BurstSet0(n) for these n (capacity must exceed n for no lag)
+    bursts: Vec<u8>,
     oob: bool,
     subscribe: bool,
     drop_sub: bool,
@@ -179,11 +183,22 @@ fn op_effect(op: Op, v: &mut Vec<Kid>, next_id: &mut u16) {
                 v.truncate(n as usize)
             }
         }
+        Op::BurstSet0(n) => {
+            for _ in 0..n {
+                let e = fresh();
+                v[0] = e;
+            }
+        }
     }
 }
 
-fn ops_for(len: u8, max_len: u8, alpha: Alphabet, out: &mut Vec<Tok>) {
+fn ops_for(len: u8, max_len: u8, alpha: Alphabet, bursts: &[u8], out: &mut Vec<Tok>) {
     let room = max_len.saturating_sub(len);
+    if len > 0 {
+        for &n in bursts {
+            out.push(Tok::Op(Op::BurstSet0(n)));
+        }
+    }
     match alpha {
         Alphabet::Full => {
             if room >= 1 {
@@ -267,7 +282,7 @@ impl<E: El> Harness for VecH<E> {
     fn enabled(&self, cfg: &Cfg, m: &Model, out: &mut Vec<Tok>) {
         if m.alive {
             let len = m.txn_len.unwrap_or(m.len);
-            ops_for(len, cfg.max_len, cfg.alphabet, out);
+            ops_for(len, cfg.max_len, cfg.alphabet, &cfg.bursts, out);
             if cfg.oob {
                 oob_for(len, out);
             }
@@ -682,6 +697,7 @@ fn apply_op<E: El, T: Target<E>>(
                 )));
             }
         }
+        Op::BurstSet0(_) => unreachable!("bursts are expanded into single set(0) calls by the interpreter"),
         Op::EntryRemove(i) => {
             let (idx, seen, old) = t.t_entry_remove(i as usize);
             if idx != i as usize || seen != pre[i as usize] || old.kid() != pre[i as usize] {
@@ -724,6 +740,7 @@ fn op_name(op: Op) -> &'static str {
         Op::Truncate(_) => "truncate",
         Op::EntrySet(_) => "entry_set",
         Op::EntryRemove(_) => "entry_remove",
+        Op::BurstSet0(_) => "burst_set",
     }
 }
 
@@ -1316,13 +1333,13 @@ impl<E: El> Rest<E> {
     }
 
     fn drain(&mut self, i: usize, st: &mut Stats) -> Result<Polled, Violation> {
-        for _ in 0..64 {
+        for _ in 0..5000 {
             match self.poll_sub(i, st)? {
                 Polled::Item => continue,
                 other => return Ok(other),
             }
         }
-        Err(viol(self.cfg.prop, self.step, "never-quiescent", format!("sub{i} still yields items after 64 polls")))
+        Err(viol(self.cfg.prop, self.step, "never-quiescent", format!("sub{i} still yields items after 5000 polls")))
     }
 
     /// After every token: eager subscribers are drained.
@@ -1414,12 +1431,21 @@ impl<E: El> World<E> {
                     continue;
                 }
                 Tok::Op(op) => {
-                    let pre = self.r.vec.clone();
-                    let ob = self.ob.as_mut().unwrap();
-                    let notify = apply_op(ob, op, &mut self.r.vec, &mut self.r.next_id, i, st)?;
-                    // direct no-ops are documented: clear on empty included
-                    let notify = if matches!(op, Op::Clear) && pre.is_empty() { (false, false) } else { notify };
-                    self.r.after_call(notify, &pre, true, st)?;
+                    let (op, times) = match op {
+                        Op::BurstSet0(n) => (Op::Set(0), n as usize),
+                        other => (other, 1),
+                    };
+                    for _ in 0..times {
+                        let pre = self.r.vec.clone();
+                        let ob = self.ob.as_mut().unwrap();
+                        let notify = apply_op(ob, op, &mut self.r.vec, &mut self.r.next_id, i, st)?;
+                        // direct no-ops are documented: clear on empty included
+                        let notify = if matches!(op, Op::Clear) && pre.is_empty() { (false, false) } else { notify };
+                        self.r.after_call(notify, &pre, true, st)?;
+                    }
+                    if times > 1 {
+                        st.hit("burst_of_single_updates");
+                    }
                 }
                 Tok::Oob(op) => {
                     let pre = self.r.vec.clone();
@@ -1519,7 +1545,12 @@ impl<E: El> World<E> {
             r.step = i;
             st.transitions += 1;
             match toks[i] {
-                Tok::Op(op) => {
+                Tok::Op(op0) => {
+                  let (op, times) = match op0 {
+                      Op::BurstSet0(n) => (Op::Set(0), n as usize),
+                      other => (other, 1),
+                  };
+                  for _ in 0..times {
                     let n = apply_op(&mut txn, op, &mut work, &mut r.next_id, i, st).map_err(|mut v| {
                         if v.sig.starts_with("contents/") {
                             // the transaction's own view of its pending changes:
@@ -1536,6 +1567,7 @@ impl<E: El> World<E> {
                         recorded = Recorded::Maybe;
                     }
                     r.txn_quiet(st)?;
+                  }
                 }
                 Tok::Oob(op) => {
                     apply_oob(&mut txn, op, &work, &mut r.next_id, i, st)?;
@@ -1875,6 +1907,7 @@ fn base(prop: &'static str) -> Cfg {
         txn: false,
         txn_abort: false,
         txn2: false,
+        bursts: vec![],
         oob: false,
         subscribe: false,
         drop_sub: false,
@@ -1943,6 +1976,13 @@ fn plans(prop: &str, tier: &str) -> Vec<Plan> {
                 cfgs.extend(with_lens(Cfg { capacity: 16, pre_subs: ps.clone(), txn: true, alphabet: Alphabet::Reduced, ..base("C06") }, 0..=2));
             }
             out.push(Plan { name: "c06-cap16-reduced", cfgs, depth: if q { 6 } else { 7 } });
+            let mut cfgs = Vec::new();
+            for cap in [16usize, 128] {
+                for ps in &sub_sets[..2] {
+                    cfgs.extend(with_lens(Cfg { capacity: cap, pre_subs: ps.clone(), txn: true, alphabet: Alphabet::Reduced, bursts: vec![34, 70], ..base("C06") }, 1..=1));
+                }
+            }
+            out.push(Plan { name: "c06-bursts", cfgs, depth: if q { 3 } else { 4 } });
         }
         "C07" => {
             let tsubs: Vec<Vec<(Kind, Policy)>> = vec![
@@ -1988,6 +2028,16 @@ fn plans(prop: &str, tier: &str) -> Vec<Plan> {
                 }
             }
             out.push(Plan { name: "c08-full", cfgs, depth: if q { 3 } else { 4 } });
+            // long runs of updates pending when the vector is dropped (capacity
+            // above the run length: "behind within capacity" with many messages)
+            let mut cfgs = Vec::new();
+            for ps in &sub_sets[..2] {
+                cfgs.extend(with_lens(
+                    Cfg { capacity: 128, pre_subs: ps.clone(), txn: true, alphabet: Alphabet::Reduced, bursts: vec![34, 70], drop_vec: true, epilogue_drop: true, ..base("C08") },
+                    1..=1,
+                ));
+            }
+            out.push(Plan { name: "c08-bursts", cfgs, depth: if q { 3 } else { 4 } });
         }
         "C17" => {
             let mut cfgs = Vec::new();
